@@ -310,3 +310,33 @@ def jsonl_read(path):
             if line:
                 out.append(json.loads(line))
     return out
+
+
+def tlaps_lemmas(ctx, module="GoldilocksLemmas", timeout=900):
+    """Thorough-tier supplement (DESIGN 2.5): the unbounded lemmas at PRODUCTION constants behind the miniature-field models are
+    proved by TLAPS.  Proof checking is deterministic but the SMT back end has per-obligation timeouts, so a failed attempt is
+    retried once with stretched timeouts; what is recorded is the number of proved obligations.  A lemma that cannot be proved
+    is reported in the coverage (and logged), it is not a property violation of the code."""
+    import shutil as _sh
+    import re as _re
+    d = ctx.workdir / "tlaps"
+    _sh.rmtree(d, ignore_errors=True)
+    d.mkdir(parents=True)
+    _sh.copy(SPECS / f"{module}.tla", d / f"{module}.tla")
+    out = ""
+    for extra in ([], ["--stretch", "5"]):
+        try:
+            r = subprocess.run(["tlapm", "--threads", "4", *extra, f"{module}.tla"], cwd=d, stdout=subprocess.PIPE, stderr=subprocess.STDOUT,
+                               text=True, timeout=timeout)
+            out = r.stdout
+        except (subprocess.TimeoutExpired, OSError) as e:
+            out = f"tlapm: {e}"
+        m = _re.search(r"All (\d+) obligations? proved", out)
+        if m:
+            ctx.cov["tlaps"] = {"module": f"specs/{module}.tla", "obligations_proved": int(m.group(1)), "all": True}
+            ctx.log(f"TLAPS {module}: all {m.group(1)} obligations proved")
+            return True
+    m = _re.search(r"(\d+)/(\d+) obligations failed", out)
+    ctx.cov["tlaps"] = {"module": f"specs/{module}.tla", "all": False, "failed": m.group(0) if m else out[-300:]}
+    ctx.log(f"note: TLAPS {module}: not all obligations proved ({m.group(0) if m else 'tool failure'})")
+    return False
